@@ -15,6 +15,7 @@ import (
 	"bytes"
 	"encoding/base64"
 	"encoding/json"
+	"errors"
 	"fmt"
 	"os"
 	"sort"
@@ -105,7 +106,13 @@ func (c *c05Run) respawn() error {
 				map[string]any{"stream": "warm-up", "route": c05RouteNames[route], "shape": vc.Shape, "request": c05Q(vc.Req), "outcome": o.Class, "panic": o.Detail})
 		}
 		if dead {
-			return fmt.Errorf("the child died during the warm-up push of %s: %s", c05RouteNames[route], o.Detail)
+			// a WELL-FORMED push ends the process: every further child would die the same way
+			if o.Class == "crash" {
+				c.r.Violate("C05/crash/"+c05RouteNames[route]+"/valid-push",
+					fmt.Sprintf("a well-formed %s push (%s %s, %d bytes) killed the writer process: %s at %s", c05RouteNames[route], vc.Req.Method, vc.Req.Path, len(vc.Req.Body), o.Detail, o.Frame),
+					map[string]any{"stream": "warm-up", "route": c05RouteNames[route], "shape": vc.Shape, "request": c05Q(vc.Req), "outcome": "crash", "panic": o.Detail, "frame": o.Frame})
+			}
+			return fmt.Errorf("%w: the child died during the warm-up push of %s: %s", errC05Fatal, c05RouteNames[route], o.Detail)
 		}
 	}
 	if _, err := c.p.Blocks(); err != nil {
@@ -531,7 +538,19 @@ func c05Replay(r *h.Result, path string, deadline int) error {
 	return nil
 }
 
+// errC05Fatal: the run cannot go on (a well-formed push kills every child); the violation is recorded
+var errC05Fatal = errors.New("C05 run ended early")
+
 func c05(r *h.Result, rng *h.Rng, tier string, replay string) error {
+	err := c05Main(r, rng, tier, replay)
+	if errors.Is(err, errC05Fatal) && len(r.Violations) > 0 {
+		r.Notes = append(r.Notes, "run ended early: "+err.Error())
+		return nil
+	}
+	return err
+}
+
+func c05Main(r *h.Result, rng *h.Rng, tier string, replay string) error {
 	deadline := 5000
 	if replay != "" {
 		return c05Replay(r, replay, deadline)
